@@ -114,6 +114,13 @@ class World:
                          ("difftool.prompt", st["difftool.prompt"]), ("mergetool.prompt", st["mergetool.prompt"])):
             if val is not None:
                 self.git("config", *sflag, key, val)
+        # the drivers registered BY HAND, as docs/source/vcs.rst shows it (no `name` line, maybe extra keys): disabling
+        # must still remove them
+        man = st.get("manual")
+        if man in ("merge", "both"):
+            self.git("config", *sflag, "merge.jupyternotebook.driver", "git-nbmergedriver merge %O %A %B %L %P")
+        if man in ("diff", "both"):
+            self.git("config", *sflag, "diff.jupyternotebook.command", "git-nbdiffdriver diff")
         # the OTHER scope has its own defaults (a repository-local value shadows the global one in plain `git config key`)
         oflag = ["--local"] if self.scope == "global" else ["--global"]
         for key in ("merge.tool", "diff.guitool"):
@@ -293,6 +300,7 @@ def run_shard(spec):
                   "attributes": r.choice(["absent", "unrelated", "unrelated_nonl", "already", "other_driver"]),
                   "custom_attributesfile": r.random() < 0.25, "xdg": r.choice(["dir", "dir", "unset", "empty"]),
                   "layout": r.choice(["plain", "plain", "separate-git-dir", "linked-worktree"]),
+                  "manual": r.choice([None, None, None, "merge", "diff", "both"]),
                   "other:merge.tool": r.choice(tools3), "other:diff.guitool": r.choice(tools3)}
             states.append((r.choice(["repository", "global"]), st))
         seqs = None
